@@ -84,8 +84,11 @@ func makeColumnDef(name string, typ string, cs []columnConstraint) ColumnDef {
 			cd.PrimaryKeyDir = SortOrder(v.sort)
 			cd.AutoIncrement = v.autoincrement
 		case ccUnique:
+			if !cd.Unique {
+				// a repeated UNIQUE changes nothing
+				cd.UniqueFirst = !cd.PrimaryKey
+			}
 			cd.Unique = bool(v)
-			cd.UniqueFirst = !cd.PrimaryKey
 		case ccCollate:
 			cd.Collate = string(v)
 		case ccReferences:
